@@ -417,4 +417,5 @@ func C17(c *vlib.Ctx) {
 	c.Assume("exact valid_from ties are broken by the smallest id (the ordering secrets.Set.ValidAt documents; the statement only says 'ties by id')")
 	c17Outbound(c)
 	c17Inbound(c)
+	deliverEdits(c)
 }
